@@ -11,7 +11,8 @@ Inductive lev :=
 | LW (w emitted : bytes)        (* Channel.Write handed w to the transport; device emitted *)
 | LCall                         (* the next API call starts *)
 | LDeadline                     (* the call in flight returned a timeout *)
-| LEof | LIoerr.                (* transport reported EOF / error to the reader *)
+| LEof | LIoerr                 (* transport reported EOF / error to the reader *)
+| LInject (b : bytes).          (* the device printed b unasked (log message, redrawn prompt) *)
 
 (* replay device: the logged writes still expected; a mismatch raises the desync flag *)
 Definition rdev := (list (bytes * bytes) * bool)%type.
@@ -121,6 +122,9 @@ Fixpoint replay_gen (final : bool) (cfg : chan_cfg) (log : list lev) (st : rst) 
           replay_gen final cfg rest (with_sys st (step rfeed cfg s1 Deadline))
       | LEof => replay_gen final cfg rest (with_sys st (step rfeed cfg s Eof))
       | LIoerr => replay_gen final cfg rest (with_sys st (step rfeed cfg s Ioerr))
+      | LInject b =>
+          replay_gen final cfg rest
+            (with_sys st (mkSys (s_dev s) (s_pending s ++ b) (s_queue s) (s_acc s) (s_pc s) (s_wlog s) (s_notes s) (s_reader s)))
       | LCall =>
           let s1 := if r_inflight st then drain cfg (fuel_of s) s else s in
           match next_call (with_sys st s1) with
